@@ -69,3 +69,19 @@ Print Assumptions C09_per_sender_prefix.
 Print Assumptions C09_interleaving.
 Print Assumptions C09_bytes.
 Print Assumptions C09_ok_says.
+
+(* generated-code tie, stage 6: the bytes write puts on the wire.  The Gallina TRANSLATION of the write
+   method of Conn (Gen/GoFuncs.v; see gen_C10_write in Props/C10.v for its shape) records the calls
+   on conn.io in order: exactly one WriteString, of the line followed by CRLF, then — when that
+   call returned no error — exactly one Flush; the bytes handed to the writer are wire_of [line];
+   the method returns an error exactly when one of the two calls did. *)
+From Verif Require Import GoFuncs GenEqWrite.
+Theorem gen_C09_write_bytes : forall flood bad last line a a' iow ioe,
+  exists r, go_client_Conn_write bad flood last line a a' iow ioe = Ok r
+  /\ written (ws_io r) = wire_of [line]
+  /\ ws_io r = (if snd iow then [(line ++ crlf, false)] else [(line ++ crlf, false); ([], true)])
+  /\ ws_err r = (snd iow || ioe).
+Proof.
+  intros. eexists. split; [apply go_write_eq|]. apply write_spec_io.
+Qed.
+Print Assumptions gen_C09_write_bytes.
